@@ -93,6 +93,30 @@ void harness(void) {
   unsigned char *base = mk_block(in_off + in_size);
   unsigned char *buf = base + in_off;
   size_t r = SER_FN(it, buf, in_size);
+#if defined(SER_LEMMA) && defined(SER_KIND_MAP)
+  /* lemma style: cbor_serialize_map's specification asserted on the real function (enforcing the contract with its
+   * frame over the pair storage did not finish) */
+  {
+    bool def = it->metadata.map_metadata.type == _CBOR_METADATA_DEFINITE;
+    size_t n = it->metadata.map_metadata.end_ptr, brk = def ? 0 : 1;
+    __CPROVER_assert(r <= in_size, "C07: the result never exceeds the window");
+    if (r != 0) {
+      __CPROVER_assert(g_z.calls == 2 * n && !g_z.ovf && !g_z.zero && g_z.ordered && g_z.contig,
+                       "C03: every key and value serialized exactly once, in pair order, in contiguous windows");
+      __CPROVER_assert(!__CPROVER_overflow_plus(g_zc.hdr, g_z.sum) && r == g_zc.hdr + g_z.sum + brk,
+                       "C07,C03: success returns the exact total: head + members (+ break)");
+      __CPROVER_assert(n == 0 || (g_z.first == buf + g_zc.hdr && g_z.end == buf + (r - brk)), "C03: members directly behind the head");
+      if (def)
+        __CPROVER_assert(ENC_BYTES_ARE(buf, 5, spec_shortest_argbytes(n), n), "C03: definite map head = shortest head of the PAIR COUNT");
+      else
+        __CPROVER_assert(buf[0] == 0xBF && buf[r - 1] == 0xFF, "C03: indefinite map: start byte, members, break");
+    } else {
+      __CPROVER_assert(g_z.zero || g_z.ovf || __CPROVER_overflow_plus(g_zc.hdr, g_z.sum) ||
+                       in_size < g_zc.hdr + g_z.sum + (g_z.calls == 2 * n ? brk : 0),
+                       "C07: failure only when the window is too small for what was attempted (hence for the total)");
+    }
+  }
+#endif
   __CPROVER_assert(r != 0, "COVER buffer too small (0)");
   __CPROVER_assert(r == 0, "COVER serialized");
 #if defined(SER_KIND_ARRAY) || defined(SER_KIND_MAP) || defined(SER_KIND_INDEF_STRING) || defined(SER_KIND_INDEF_BYTESTRING)
